@@ -492,7 +492,7 @@ pub fn finish(ctx: &Ctx) -> i32 {
     crate::engine::finish(
         ctx,
         Finish {
-            rule: "cases: (a) complete sweep = every core opcode in minimal and maximal form, every enumerant of every operand kind, every single bit / pair of bits / all bits of every mask, every opcode embedded in OpSpecConstantOp (x3 fills each); (b) random grammar-directed plans over all 787 opcodes with a random int/float type prelude. (b') the same with result ids (type ids, typed values, selectors) drawn from the extreme values 0 / 0x7fffffff / 0x80000000 / 0xffffffff. (b'') the same with OpFunction / OpFunctionParameter / OpLabel / OpReturn / OpFunctionEnd / OpNop scattered through the prelude, so that the instruction sits in a later function and its types or typed values are declared at module scope or in an earlier function body. (c) instructions of 65530..=65535 words (the largest count the first word can declare): an id list, a pair list, a string. Oracle: Instruction::assemble == words built from numeric values by the generator; parse_words/parse_bytes of header+prelude+words deliver an equal instruction; reference parser R1 accepts the same words. non-trivial = instruction with at least one operand or a result id; distinct = hash of the encoded words.",
+            rule: "cases: (a) complete sweep = every core opcode in minimal and maximal form, every enumerant of every operand kind, every single bit / pair of bits / all bits of every mask, every opcode embedded in OpSpecConstantOp (x3 fills each); (b) random grammar-directed plans over all 787 opcodes with a random int/float type prelude. (b') the same with result ids (type ids, typed values, selectors) drawn from the extreme values 0 / 0x7fffffff / 0x80000000 / 0xffffffff. (b'') the same with OpFunction / OpFunctionParameter / OpLabel / OpReturn / OpFunctionEnd / OpNop scattered through the prelude, so that the instruction sits in a later function and its types or typed values are declared at module scope or in an earlier function body. (c) instructions of 65530..=65535 words (the largest count the first word can declare): an id list, a pair list, a string. Oracle: Instruction::assemble == words built from numeric values by the generator; parse_words/parse_bytes of header+prelude+words deliver an equal instruction; reference parser R1 accepts the same words. non-trivial = instruction with at least one operand or a result id; distinct = hash of the encoded words. Added in rounds 18-19: bulk-prelude (65 530 - 262 150 declarations before the instruction); ids straddling powers of two and ten in edge-ids.",
             assumptions: vec![
                 "grammar facts (operand kinds, quantifiers, enumerant parameters) come from the golden snapshot of the pinned tree, cross-checked against hand-written specification anchors (golden/verify.py)".into(),
                 "ids are defined once; context-dependent literals are generated only for supported widths".into(),
